@@ -1255,7 +1255,7 @@ def leaf_layer(run, rng, tier, model):
             bad = "oer_open_type_skip reports %s octets for a buffer of %d" % (cf[2], size)
         elif f[0] == "uskip" and cf and cf[0] == "OK" and not (8 <= int(cf[1]) and int(f[2]) + int(cf[1]) <= 8 * size):
             bad = "uper_open_type_skip moved %s bits from offset %s in a buffer of %d octets" % (cf[1], f[2], size)
-        elif f[0] in ("xskip", "xskiprun") and cf and not (int(cf[1]) >= 0 and (int(cf[0]) in (1, 2)) == (int(cf[1]) == 0 and int(cf[0]) > 0) and int(cf[0]) in (-1, 0, 1, 2)):
+        elif f[0] in ("xskip", "xskiprun") and cf and not (int(cf[1]) >= 0 and (int(cf[0]) == 1) == (int(cf[1]) == 0 and int(cf[0]) > 0) and int(cf[0]) in (-1, 0, 1)):
             bad = "xer_skip_unknown: return value and depth counter out of step"
         elif exp is not None and c != exp:
             bad = "built to give `%s`" % exp
